@@ -268,7 +268,7 @@ func c05GenCase(t *rapid.T, kind string, modes []string, maxClients int) *c05Cas
 					st.ID = rapid.IntRange(0, cs.NIDs-1).Draw(t, "id")
 				}
 				if st.Op == 'R' || st.Op == 'S' || st.Op == 'C' {
-					st.Class = rapid.SampledFrom([]byte("pppppnnnLe0")).Draw(t, "class")
+					st.Class = rapid.SampledFrom([]byte("ppppppppnnnnLee00")).Draw(t, "class")
 					if st.Class == 'e' || st.Class == '0' {
 						// the empty value cannot be made unique: at most one writer of it per ID
 						if emptyUsed[st.ID] {
@@ -277,7 +277,7 @@ func c05GenCase(t *rapid.T, kind string, modes []string, maxClients int) *c05Cas
 						emptyUsed[st.ID] = true
 					}
 					if st.Class == 'L' {
-						st.Size = rapid.SampledFrom([]int{4096, 70000, 300000}).Draw(t, "size")
+						st.Size = rapid.SampledFrom([]int{4096, 4096, 70000, 70000, 300000}).Draw(t, "size")
 					}
 				}
 				if st.Op == 'S' {
